@@ -83,6 +83,8 @@ type Exec struct {
 	ghostEntry      map[string]*Term
 	nPreFacts       int
 	ordSeen         map[string]map[string]int
+	hex             map[string]*hexModel
+	specVarsExtra   []string
 }
 
 type lazyForall struct {
